@@ -2,7 +2,7 @@ INIT Init
 NEXT Next
 CONSTANTS
   SpeciesSeq <- Species8
-  Catalog <- CatChain
+  Catalog <- CatChain5
   Comp <- NoComp
   UseComp = FALSE
   MaxRx = 5
@@ -15,6 +15,7 @@ CONSTANTS
   ConcGrid <- G_None
   YieldK <- K_None
   TerminalQueries = TRUE
+  AllowEmpty = FALSE
 
 INVARIANT WorkspaceWellFormed
 INVARIANT SplitPartitions
